@@ -58,11 +58,84 @@ def analyse_direction(ctx, name):
     return cls, fn, g, res
 
 
-def kdf_facts(r):
+def subst(t, m):
+    """substitute ('param', p) by m[p] in term t"""
+    if isinstance(t, tuple):
+        if len(t) == 2 and t[0] == "param" and t[1] in m:
+            return m[t[1]]
+        return tuple(subst(x, m) for x in t)
+    return t
+
+
+def params_in(t):
+    return {x[1] for x in subterms(t) if isinstance(x, tuple) and len(x) == 2 and x[0] == "param"}
+
+
+def helper_derivation(ctx, call_event):
+    """the caller obtains its derived bytes from `self.<helper>(args)`: evaluate the helper's paths.
+    -> ('ok', deriveSecrets args in the caller's terms) | ('bad', reason) | None (not a derivation helper)"""
+    repo = ctx.repo
+    cls = repo.cls(FILE, CLS)
+    k, hfn = repo.find_method(cls, call_event["func"])
+    if hfn is None or call_event["recv"] != ("name", "self") and call_event["recv_var"] != "self":
+        return None
+    if not any(isinstance(c, ast.Call) and isinstance(c.func, ast.Attribute) and c.func.attr == "deriveSecrets" for c in ast.walk(hfn)):
+        return None
+    hp = params_of(hfn)
+    if len(hp) != len(call_event["args"]) or call_event["kwargs"]:
+        return ("bad", "helper %s is not called with one positional argument per parameter" % hfn.name)
+    m = dict(zip(hp, call_event["args"]))
+    pe = PathEval(hfn, Evaluator(repo, cls.module, cls))
+    hres = [r for r in all_path_results(CFG(hfn), pe) if r["terminal"] == "exit"]
+    fresh_args = set()
+    cached = []
+    stores = []
+    for r in hres:
+        d = find_events(r, "deriveSecrets")
+        for (base, tgt, val) in r["env"].get("@store", []):
+            stores.append((base, tgt, val))
+        if r["ret"] is None:
+            return ("bad", "helper %s has a path without a return value" % hfn.name)
+        if len(d) == 1 and d[0]["result"] in subterms(r["ret"]) and r["ret"] == d[0]["result"]:
+            fresh_args.add(d[0]["args"])
+        elif not d:
+            cached.append(r["ret"])
+        else:
+            return ("bad", "helper %s returns something other than the derived bytes on some path" % hfn.name)
+    if len(fresh_args) != 1:
+        return ("bad", "helper %s derives with differing arguments on different paths" % hfn.name)
+    fa = next(iter(fresh_args))
+    need = params_in(("tuple",) + tuple(fa))
+    for ret in cached:
+        # a value read back from instance / class state: it must have been stored under a key that determines it
+        reads = [x for x in subterms(ret) if isinstance(x, tuple) and x[0] in ("call", "sub") and any(isinstance(y, tuple) and (y[0] in ("self", "attr", "name") or (y[0] == "const" and isinstance(y[1], (dict, list)))) for y in subterms((x[2] or ("unk", "")) if x[0] == "call" else x[1]))]
+        if not reads:
+            return ("bad", "helper %s returns %s, which is not the derived material" % (hfn.name, show(ret)[:60]))
+        rd = reads[0]
+        key_t = (rd[3][0] if rd[3] else None) if rd[0] == "call" else rd[2]
+        have = params_in(key_t) if key_t is not None else set()
+        st_ok = [1 for (base, tgt, val) in stores if need <= {n.id for n in ast.walk(tgt.slice) if isinstance(n, ast.Name)}]
+        if not need <= have or (stores and len(st_ok) != len(stores)):
+            miss = sorted(need - have) or sorted(need)
+            return ("bad", "derived keys are cached under a key that does not include %s, which they depend on: a later call with a different %s (another media kind) is handed the wrong iv / cipher key / mac key" % (", ".join(miss), ", ".join(miss)))
+    return ("ok", tuple(subst(a, m) for a in fa))
+
+
+def kdf_facts(r, ctx=None):
     d = find_events(r, "deriveSecrets")
     if len(d) != 1:
-        return None
-    de = d[0]
+        if d or ctx is None:
+            return None
+        hs = [(e, helper_derivation(ctx, e)) for e in r["events"] if e["recv_var"] == "self"]
+        hs = [(e, h) for e, h in hs if h is not None]
+        if len(hs) != 1:
+            return None
+        e, h = hs[0]
+        if h[0] == "bad":
+            return {"bad": h[1], "via": e}
+        de = {"result": e["result"], "args": h[1]}
+    else:
+        de = d[0]
     derived = de["result"]
     facts = {"derived": derived, "args": de["args"]}
     for fname, key in (("AES", "key"), ("CBC", "iv")):
@@ -128,8 +201,12 @@ def run(ctx):
         ctx.undecided("C15.kdf", We, efn, "no normal path through encrypt/decrypt")
         return
     # ---------------- kdf
-    ef = [kdf_facts(r) for r in eres]
-    df = [kdf_facts(r) for r in dres]
+    ef = [kdf_facts(r, ctx) for r in eres]
+    df = [kdf_facts(r, ctx) for r in dres]
+    badh = [f for f in ef + df if f is not None and "bad" in f]
+    if badh:
+        ctx.violate("C15.kdf", We, "self.%s(...)" % badh[0]["via"]["func"], badh[0]["bad"])
+        return
     if any(f is None for f in ef + df):
         ctx.undecided("C15.kdf", We, efn, "expected exactly one deriveSecrets(...) call on every path")
         return
